@@ -12,7 +12,7 @@ fn keyset(seed: u64) -> (Vec<u8>, Vec<u8>, Vec<u8>, Vec<u8>) {
     let mut r = Rng::new(seed ^ 0xC01);
     (r.bytes(32), r.bytes(32), r.bytes(32), r.bytes(32)) // sender, recipient, ephemeral, payload key
 }
-pub fn pub_of(skb: &[u8]) -> Vec<u8> { imp::sk(skb).to_public().expect("public key").as_bytes().to_vec() }
+pub fn pub_of(skb: &[u8]) -> Vec<u8> { let p = imp::sk(skb).to_public().expect("public key").as_bytes().to_vec(); imp::learn_keypair(skb, &p); p }
 
 impl Prop for C01 {
     fn id(&self) -> &'static str { "C01" }
@@ -61,6 +61,10 @@ impl Prop for C01 {
         for _ in 0..nkeys {
             v.push(case(&[("kind", "api".into()), ("len", rng.range(0, 90).to_string()), ("rk", "random".into()), ("wk", "all".into()),
                 ("fresh", (rng.chance(1, 4)).to_string()), ("seed", rng.next().to_string())]));
+        }
+        for i in 0..(if thorough { 60 } else { 12 }) {
+            v.push(case(&[("kind", "api".into()), ("len", (*rng.pick(&[0usize, 1, 13, 65535, 65536, 65537])).to_string()), ("rk", (*rng.pick(&["full", "random"])).into()), ("wk", "all".into()),
+                ("fresh", (i % 2 == 0).to_string()), ("ident", (if i % 3 == 2 { "self-eph" } else { "self" }).into()), ("seed", rng.next().to_string())]));
         }
         v.extend(crate::props::clirt::cli_rt_cases("key", tier, seed));
         v
@@ -112,7 +116,10 @@ impl Prop for C01 {
             return o;
         }
         // public API
-        let (s, r, e, pk) = keyset(seed);
+        let (s, mut r, mut e, pk) = keyset(seed);
+        // identity relations the quantifier allows: a user encrypting to their own key; an ephemeral key equal to the static one
+        match get(c, "ident") { "self" => { r = s.clone(); } "self-eph" => { r = s.clone(); e = s.clone(); } _ => {} }
+        if !get(c, "ident").is_empty() { o.tags.push(format!("identity relation: {}", get(c, "ident"))); }
         let (spk, rpk, epk) = (pub_of(&s), pub_of(&r), pub_of(&e));
         let fresh = get(c, "fresh") == "true";
         let rs = read_schedule(get(c, "rk"), len, 65536, &mut rng);
